@@ -76,7 +76,7 @@ func (s *PoolSystem) Config() map[string]any {
 		"nsubs": s.NSubs, "usable": s.A.Usable, "nunits": s.A.Geo.NUnits()}
 }
 func (s *PoolSystem) Events() []core.Event { return s.events }
-func (s *PoolSystem) New() core.Instance  { return &poolInst{s: s, im: s.A.mk()} }
+func (s *PoolSystem) New() core.Instance   { return &poolInst{s: s, im: s.A.mk()} }
 
 type poolInst struct {
 	s  *PoolSystem
